@@ -15,7 +15,7 @@ import (
 // The shapes cover what the statement lists: shared / duplicate / invalid / excluded assets,
 // redirect chains and loops, 4xx / 5xx, retry-then-ok, retry-then-fail, assets of assets.
 //
-// usage: zeno-verif c01 <scratch-dir> <trace> <n-seeds> <workers> <max-concurrent-assets>
+// usage: zeno-verif c01 <scratch-dir> <trace> <n-seeds> <workers> <max-concurrent-assets> [slow-source-ms]
 func init() { scenarios["c01"] = c01 }
 
 var htmlCT = map[string]string{"Content-Type": "text/html; charset=utf-8"}
@@ -155,8 +155,12 @@ func buildSite(r *rand.Rand, org *origin.Server, k int, shared []string) (seedUR
 }
 
 func c01(args []string) error {
-	if len(args) != 5 {
-		return fmt.Errorf("usage: c01 <dir> <trace> <nseeds> <workers> <assets>")
+	if len(args) != 5 && len(args) != 6 {
+		return fmt.Errorf("usage: c01 <dir> <trace> <nseeds> <workers> <assets> [slow-source-ms]")
+	}
+	slow := 0
+	if len(args) == 6 {
+		fmt.Sscan(args[5], &slow)
 	}
 	var n, w, ma int
 	fmt.Sscan(args[2], &n)
@@ -171,6 +175,14 @@ func c01(args []string) error {
 		return err
 	}
 	run.perturb = true
+	if slow > 0 {
+		// a source that is slow to take finish notifications: its channel fills up and the finisher has to wait
+		run.extra = func(point string, a ...any) {
+			if point == "lq.finish.recv" {
+				time.Sleep(time.Duration(slow) * time.Millisecond)
+			}
+		}
+	}
 	r := vh.Rand(int64(100 + w*10 + ma))
 	// a few assets shared between seeds
 	var shared []string
